@@ -19,6 +19,7 @@ meta = {
         "how": "tools/seed_eval.py: demo on clean worktree, git apply, demo again, full pinned test-suite inside the worktree (PYTHONPATH=worktree), quick check with VERIF_REPO=worktree, restore",
     },
     "check_result": ev["checks"], "caught": ev["caught"],
+    "first_evaluation": ev.get("first_evaluation"),
     "replay": "git -C /repo apply /verif/seeded/%s/patch.diff && /venv/bin/python -m vmon.run %s --tier quick ; git -C /repo checkout -- ." % (sid, prop),
 }
 json.dump(meta, open(f"{d}/meta.json", "w"), indent=1)
